@@ -37,7 +37,7 @@ VARIABLES lock,     \* lock name -> owner thread or "free"   (layer locks + "flu
 
 vars == <<lock, pc, job, held, outcome, sctr, rctr, mine, writeQ, incomingQ, wire, up, nframes>>
 View == vars
-Locks == {Chain[i] : i \in 1..Len(Chain)} \cup {"flush"}
+Locks == {Chain[i] : i \in 1..Len(Chain)} \cup {"flush", "transport"}
 
 \* ---- programs: sequences of operations ----
 Acq(l) == [k |-> "acq", l |-> l]
@@ -49,15 +49,21 @@ RECURSIVE Rels(_, _)
 Rels(i, n) == IF i < n THEN <<>> ELSE << Rel(Chain[i]) >> \o Rels(i - 1, n)
 SendProg(entry) ==
   Acqs(Idx(entry), Idx("coder"))                         \* ... acquire coder: encode + encrypt happen before the next operation
-  \o << Op("putW"), Op("getW"), Acq("noise"),
+  \o << Op("putW"), Op("getW"),
+        Acq("transport"),                                \* the write belongs to the current connection (checked under this lock)
+        Acq("noise"),
         Acq("seg"), Rel("seg"),                          \* header written under the first acquisition
         Acq("seg"), Rel("seg"),                          \* payload under the second
-        Rel("noise") >>
+        Rel("noise"), Rel("transport") >>
   \o Rels(Idx("coder"), Idx(entry))
 \* receive(frame): queue it; flush under the flush lock: while the queue is non-empty, the transport reads the next segment
 \* through the stream's read queue, decrypts it with the next counter and hands the stanza upward
-RecvProg == << Op("putI"), Acq("flush"), Op("sizeI"), Op("getI"), Op("putR"), Op("getR"), Op("sizeI2"), Rel("flush") >>
-Prog(j) == IF j.kind = "send" THEN SendProg(j.entry) ELSE RecvProg
+RecvProg == << Op("putI"), Acq("transport"), Rel("transport"),   \* the connection's queue / lock / protocol are picked up under the transport lock
+              Acq("flush"), Op("sizeI"), Op("getI"), Op("putR"), Op("getR"), Op("sizeI2"), Rel("flush") >>
+\* an incoming stanza that the layers above answer from within its delivery (server ping -> pong, message -> receipt):
+\* the delivering thread walks the send path while it is still flushing
+RecvReplyProg == << Op("putI"), Acq("transport"), Rel("transport"), Acq("flush"), Op("sizeI"), Op("getI"), Op("putR"), Op("getR") >> \o SendProg("top") \o << Op("sizeI3"), Rel("flush") >>
+Prog(j) == IF j.kind = "send" THEN SendProg(j.entry) ELSE IF j.kind = "recvreply" THEN RecvReplyProg ELSE RecvProg
 
 NoFrame == [by |-> "-", n |-> 0, ctr |-> 0, bad |-> FALSE]
 Init == /\ lock = [l \in Locks |-> "free"] /\ pc = [t \in Threads |-> 0] /\ job = [t \in Threads |-> 0]
@@ -127,7 +133,7 @@ Step(t) ==
                /\ incomingQ' = Append(incomingQ, [by |-> "srv", n |-> nframes + 1, ctr |-> 0, bad |-> CurJob(t).fault \in {"deliver", "undecodable"}]) /\ nframes' = nframes + 1 /\ pc' = [pc EXCEPT ![t] = @ + 1]
                /\ UNCHANGED <<lock, held, outcome, sctr, rctr, mine, writeQ, wire, up>>
           [] o.k = "sizeI" ->   \* while queue non-empty: next is getI; else skip to the release
-               /\ pc' = [pc EXCEPT ![t] = IF incomingQ = <<>> THEN Len(RecvProg) ELSE @ + 1]
+               /\ pc' = [pc EXCEPT ![t] = IF incomingQ = <<>> THEN Len(Prog(CurJob(t))) ELSE @ + 1]
                /\ UNCHANGED <<lock, held, outcome, sctr, rctr, mine, writeQ, incomingQ, wire, up, nframes>>
           [] o.k = "getI" ->
                /\ incomingQ # <<>>
@@ -143,6 +149,9 @@ Step(t) ==
                   ELSE /\ up' = Append(up, [f |-> mine[t].n, ok |-> mine[t].n = rctr + 1])
                        /\ pc' = [pc EXCEPT ![t] = @ + 1] /\ UNCHANGED <<lock, held, outcome>>
                /\ UNCHANGED <<sctr, mine, writeQ, incomingQ, wire, nframes>>
+          [] o.k = "sizeI3" ->  \* loop of the replying receive program
+               /\ pc' = [pc EXCEPT ![t] = IF incomingQ = <<>> THEN @ + 1 ELSE 6]
+               /\ UNCHANGED <<lock, held, outcome, sctr, rctr, mine, writeQ, incomingQ, wire, up, nframes>>
           [] o.k = "sizeI2" ->  \* loop: more queued frames go back to getI
                /\ pc' = [pc EXCEPT ![t] = IF incomingQ = <<>> THEN @ + 1 ELSE @ - 3]
                /\ UNCHANGED <<lock, held, outcome, sctr, rctr, mine, writeQ, incomingQ, wire, up, nframes>>
@@ -166,7 +175,7 @@ CounterOrder == \A i \in 1..Len(Payloads) : Payloads[i].f.ctr = i - 1
 \* C11: each stanza sent is transmitted exactly once
 ExactlyOnce == AllDone =>
   \A t \in Threads : \A n \in 1..Len(Jobs[t]) :
-     (Jobs[t][n].kind = "send" /\ outcome[t][n] = "ok") =>
+     (Jobs[t][n].kind \in {"send", "recvreply"} /\ outcome[t][n] = "ok") =>
         Cardinality({i \in 1..Len(Payloads) : Payloads[i].f.by = t /\ Payloads[i].f.n = n}) = 1
 \* incoming frames go upward in order, each decryptable with the next counter
 UpInOrder == \A i \in 1..Len(up) : up[i].ok
